@@ -6,25 +6,33 @@ from hypothesis import strategies as st
 from vlib.core import Clause, Violation
 from vlib.q import Q
 
-from audiolazy import overlap_add, stft, Stream, blocks
+from audiolazy import overlap_add, stft, Stream, blocks, window, wsymm
 
 ID = "C09"
 RULE = ("cases = (size, hop <= size, m blocks of exact rationals, block container kind, window "
-        "kind and values incl. negative and zero entries, normalise on/off/default, size given or "
-        "detected) for overlap_add.list; signals blocked by Stream.blocks and overlap-added with "
+        "kind (list, tuple, generator, Stream, iterator, function, callable object that is also iterable, "
+        "the window / wsymm strategy dictionaries themselves) and values incl. negative and zero entries, "
+        "normalise on/off/default, size given or detected) for overlap_add.list; signals blocked by Stream.blocks and overlap-added with "
         "windows built to sum to one under hop shifts; stft wrappers with generated option "
-        "splits, calling styles and pure-Python stages; oracle = ola_ref (the defining sum with "
+        "splits, calling styles and pure-Python stages, the overlap-add given as ola= or taken from "
+        "overlap_add.default set before or after the processor is built; stage chains whose intermediate "
+        "values are of any kind (sparse dicts, scalars, per-block measures, falsy or truth-less block "
+        "objects) over signals with runs of zeros; oracle = ola_ref (the defining sum with "
         "the stated gain, in Fractions), reconstruction equality on fully covered samples, and "
         "the recorded wiring (blocks seen by the user function, stage order, kwargs reaching the "
         "overlap-add); non-trivial = at least 2 blocks and hop < size; distinct = distinct case hash")
 ASSUMPTIONS = [
   "samples and window values are Q (exact); the no-window normalisation gain is the double 1/ceil(size/hop) computed by the code and is taken at its exact binary value",
-  "only the pure-Python strategy overlap_add.list is exercised (numpy is not installed); stft always gets ola=overlap_add.list or a recording wrapper of it",
+  "only the pure-Python strategy overlap_add.list is exercised (numpy is not installed); stft gets ola=overlap_add.list or a recording wrapper of it, or no ola= with overlap_add.default set to that recording wrapper for the duration of the case (restored afterwards)",
+  "with the window / wsymm dictionaries as the window and normalisation on, the hop gain is a sum of doubles: that branch is compared with the same call given the evaluated window list; without normalisation it is compared with ola_ref on the exact values of the doubles",
+  "a falsy *transform object* is not generated (the unchanged wrapper's 'transform and (lambda ...)' idiom); falsy or truth-less stage *results* are",
   "m = 0 with a given size yields the size-hop zeros of the empty sum; with a detected size the output is empty (upstream test_empty)",
 ]
 
 qv = st.fractions(min_value=-3, max_value=3, max_denominator=5).map(Q)
-WKINDS = ["none", "list", "tuple", "callable", "gen", "stream", "iter"]
+WKINDS = ["none", "list", "tuple", "callable", "gen", "stream", "iter",
+          "callable+iterable", "dict:window", "dict:wsymm"]
+STRATEGY_DICTS = {"dict:window": window, "dict:wsymm": wsymm}
 BKINDS = ["lists", "tuples", "gen", "stream", "deques", "iters"]
 
 
@@ -49,9 +57,27 @@ def ola_ref(blks, size, hop, wnd, normalize):
   return out
 
 
+class CallIter(object):
+  """A window function given as an object that is callable (wnd(size) -> the window) and that also
+  happens to be iterable; iterating it does NOT give the window (as with the package's own
+  ``window`` / ``wsymm`` strategy dictionaries, whose iteration yields their strategies)."""
+  def __init__(self, wv):
+    self.wv = list(wv)
+
+  def __call__(self, n):
+    return list(self.wv)
+
+  def __iter__(self):
+    return iter([v + 1 for v in reversed(self.wv)])
+
+
 def mk_window(kind, wv):
   if kind == "none":
     return None
+  if kind == "callable+iterable":
+    return CallIter(wv)
+  if kind in STRATEGY_DICTS:
+    return STRATEGY_DICTS[kind]           # the dictionary object itself: calling it is calling its default
   if kind == "list":
     return list(wv)
   if kind == "tuple":
@@ -108,6 +134,9 @@ def run_ola(c):
     wv = [Q(0)] * size
   elif c["wshape"] == "ones":
     wv = [Q(1)] * size
+  sdict = STRATEGY_DICTS.get(c["wkind"])
+  if sdict is not None:
+    wv = [Q(v) for v in sdict.default(size)]     # the doubles of the dictionary's default window, exactly
   m = len(blks)
   detect = c["detect"]
   kw = {}
@@ -136,6 +165,11 @@ def run_ola(c):
   got = list(out)
   if detect and m == 0:
     exp = []
+  elif sdict is not None and norm:
+    # the hop gain of a window of doubles is a double sum: compared with the same call given the
+    # evaluated window as a plain list (a window function is, by definition, its wnd(size) list)
+    exp = list(overlap_add.list([list(b) for b in blks], size=size, hop=hop,
+                                wnd=[float(v) for v in wv], normalize=True))
   else:
     exp = ola_ref(blks, size, hop, None if c["wkind"] == "none" else wv, norm)
   if len(got) != len(exp):
@@ -151,6 +185,8 @@ def run_ola(c):
   labels = ["window:" + c["wkind"], "blocks:" + bkind, "normalize:%s" % c["norm"]]
   if stored is not None:
     labels.append("caller keeps the window list")
+  if sdict is not None:
+    labels.append("window is a strategy dictionary")
   if detect:
     labels.append("detected size")
   if m == 0:
@@ -281,7 +317,8 @@ def strat_stft(tier):
       segs=st.lists(st.lists(qv, min_size=hop, max_size=hop), min_size=R - 1, max_size=R - 1),
       sig=st.one_of(st.lists(qv, max_size=8), st.lists(qv, min_size=hop * R + hop, max_size=24)),
       window_at=st.sampled_from(["analysis", "ola", "none"]),
-      wkind=st.sampled_from(["list", "tuple", "callable", "gen", "stream"]),
+      wkind=st.sampled_from(["list", "tuple", "callable", "gen", "stream", "callable+iterable"]),
+      ola_via=st.sampled_from(["ola=", "ola=", "default set before build", "default set after build"]),
       style=st.sampled_from(["direct", "decorator", "partial", "partial2"]),
       split=st.lists(st.booleans(), min_size=8, max_size=8),
       stages=st.sampled_from(["none", "reverse pair", "scale pair", "all four", "before only"]),
@@ -290,6 +327,14 @@ def strat_stft(tier):
 
 
 def run_stft(c):
+  saved_default = overlap_add.default
+  try:
+    return _run_stft(c)
+  finally:
+    overlap_add.default = saved_default
+
+
+def _run_stft(c):
   hop, R, sig = c["hop"], c["R"], c["sig"]
   size = hop * R
   w = cola_window(c["segs"], hop, False)
@@ -307,6 +352,10 @@ def run_stft(c):
   def rec_ola(blks, **kw):
     ola_kw.append(dict(kw))
     return overlap_add.list(blks, **{k: v for k, v in kw.items() if k not in EXTRA})
+
+  def stale_ola(blks, **kw):
+    raise Violation("no ola= given: the processor overlap-added with the strategy that was overlap_add.default "
+                    "when it was built, not with the default in force when it is used (received %r)" % (sorted(kw),))
 
   def t_rev(blk, n):
     log.append("transform")
@@ -345,6 +394,12 @@ def run_stft(c):
     func, b_scale, a_scale = Falsy(func), Falsy(b_scale), Falsy(a_scale)
   opts = {"size": size, "ola": rec_ola, "transform": None, "inverse_transform": None,
           "before": None, "after": None}
+  # without ola= the wrapper uses "the overlap_add default strategy": the settable attribute
+  # overlap_add.default, as it stands when the processor is used (numpy is absent here, so a program
+  # has to select another default; it may do so before or after building its processors)
+  via = c["ola_via"]
+  if via != "ola=":
+    del opts["ola"]
   expect_order = ["func"]
   st_ = c["stages"]
   if st_ in ("reverse pair", "all four"):
@@ -395,6 +450,10 @@ def run_stft(c):
     # partial as it was (its keywords must not leak into what is derived next)
     partial(lambda blk: blk, wnd=[Q(9)] * size, hop=size, ola_normalize=True, ola_wnd=[Q(7)] * size)
     partial(wnd=[Q(5)] * size)
+  if via == "default set before build":
+    overlap_add.default = rec_ola
+  elif via == "default set after build":
+    overlap_add.default = stale_ola
   if style == "direct":
     proc = stft(func, **build)
   elif style == "decorator":
@@ -413,6 +472,8 @@ def run_stft(c):
     # later settings override earlier ones
     proc = stft(size=size + 5, **{k: v for k, v in build.items() if k != "size"})(func, size=size) \
       if "size" in build else stft(**build)(func)
+  if via == "default set after build":
+    overlap_add.default = rec_ola
   out = proc(list(sig), **call)
   if not isinstance(out, Stream):
     raise Violation("stft wrapper returned %s" % type(out).__name__)
@@ -436,7 +497,7 @@ def run_stft(c):
   if ola_kw[0] != expect_ola:
     raise Violation("overlap-add received %r, expected %r" % (ola_kw[0], expect_ola))
   if own_hop is not None:
-    return {"nontrivial": nb >= 2, "labels": ["style:" + style, "overlap-add with its own hop"]}
+    return {"nontrivial": nb >= 2, "labels": ["style:" + style, "overlap-add with its own hop", "overlap-add by " + via]}
   # --- reconstruction (identity processing; the scale pair cancels, 'before only' doubles)
   factor = 2 if st_ == "before only" else 1
   N = len(sig)
@@ -477,8 +538,184 @@ def run_stft(c):
                       % (len(seen), len(got2), nb, len(got)))
     labels_extra.append("processor reused with another window")
   return {"nontrivial": nb >= 2 and R >= 2,
-          "labels": labels_extra + ["style:" + style, "window at " + c["window_at"], "stages:" + st_,
+          "labels": labels_extra + ["style:" + style, "window at " + c["window_at"], "stages:" + st_, "overlap-add by " + via,
                      "call-time options" if call else "build-time only"] + (["call-time override"] if override else [])}
+
+
+# ------------------------------------------------------------------ STFT stages: values of any kind
+class FalsyList(list):
+  """A block representation whose truth value is False whatever it holds."""
+  def __bool__(self):
+    return False
+
+
+class NoTruth(list):
+  """A block representation that, like a numpy array, refuses to be used as a truth value."""
+  def __bool__(self):
+    raise ValueError("the truth value of a block with more than one element is ambiguous")
+
+
+# name -> (encode(list of samples) -> stage result, decode(stage result, size) -> list of samples)
+CODECS = {
+  "sparse dict": (lambda b: {i: v for i, v in enumerate(b) if v != 0},
+                  lambda x, n: [x.get(i, Q(0)) for i in range(n)]),
+  "scalar": (lambda b: b[0], lambda x, n: [x]),                 # size 1: the sample itself
+  "falsy list": (lambda b: FalsyList(b), lambda x, n: list(x)),
+  "no truth value": (lambda b: NoTruth(b), lambda x, n: list(x)),
+  "tuple": (lambda b: tuple(b), lambda x, n: list(x)),
+}
+# analysis only (ola=None): what the user function makes of one block
+MEASURES = {
+  "sum": lambda b: sum(b, Q(0)),
+  "count of non-zero": lambda b: len([v for v in b if v != 0]),
+  "non-zero samples": lambda b: [v for v in b if v != 0],
+  "sparse dict": CODECS["sparse dict"][0],
+  "any non-zero": lambda b: any(v != 0 for v in b),
+}
+zq = st.sampled_from([Q(0), Q(0), Q(0), Q(1), Q(-1), Q(1, 2), Q(-1, 2), Q(2)])
+
+
+def strat_values(tier):
+  def rest(k):
+    where, kind, hop, R = k
+    if kind == "scalar":
+      hop = R = 1
+    size = hop * R
+    return st.fixed_dictionaries(dict(
+      where=st.just(where), hop=st.just(hop), R=st.just(R),
+      kind=st.sampled_from(sorted(MEASURES)) if where == "analysis only" else st.just(kind),
+      sig=st.one_of(st.lists(qv, min_size=1, max_size=24), st.lists(zq, min_size=1, max_size=24)),
+      zruns=st.lists(st.tuples(st.integers(0, 20), st.integers(1, 2 * size + 2)), max_size=2),
+      wnd=st.one_of(st.none(), st.lists(zq, min_size=size, max_size=size)),
+      wkind=st.sampled_from(["list", "callable", "callable+iterable"]),
+      at_call=st.booleans()))
+  return st.tuples(st.sampled_from(["transform pair", "before/after pair", "func/inverse pair", "analysis only"]),
+                   st.sampled_from(sorted(CODECS)), st.integers(1, 3), st.sampled_from([1, 2, 2, 3])).flatmap(rest)
+
+
+def _same(a, b):
+  return type(a) is type(b) and a == b
+
+
+def run_values(c):
+  hop, R, where, kind = c["hop"], c["R"], c["where"], c["kind"]
+  size = hop * R
+  sig = list(c["sig"])
+  for start, n in c["zruns"]:
+    for i in range(start, min(start + n, len(sig))):
+      sig[i] = Q(0)
+  w = c["wnd"]
+  blks = [list(b) for b in blocks(list(sig), size=size, hop=hop)]
+  wblks = [[wi * bi for wi, bi in zip(w, b)] for b in blks] if w is not None else blks
+  nb = len(blks)
+  received = []               # (stage, what it was called with), in call order
+
+  def note(stage, x, first=False):
+    # the first stage gets the block in whatever sequence type the wrapper uses; later ones get the
+    # very value the stage before them returned
+    received.append((stage, list(x) if first else (type(x)(x) if isinstance(x, (dict, list)) else x)))
+
+  opts = dict(size=size, hop=hop, transform=None, inverse_transform=None, before=None, after=None,
+              ola=overlap_add.list, ola_normalize=False)
+  if w is not None:
+    opts["wnd"] = mk_window(c["wkind"], w)
+  expect = []                 # the same, from the model
+  if where == "analysis only":
+    measure = MEASURES[kind]
+    opts["ola"] = None
+    del opts["ola_normalize"]
+
+    def func(blk):
+      note("func", blk, True)
+      return measure(list(blk))
+    results = [measure(b) for b in wblks]
+    for b in wblks:
+      expect.append(("func", b))
+  else:
+    enc, dec = CODECS[kind]
+    results = [enc(b) for b in wblks]
+    if where == "transform pair":
+      def transform(blk, n):
+        note("transform", blk, True)
+        if n != size:
+          raise Violation("transform called with size %r" % (n,))
+        return enc(list(blk))
+
+      def func(x):
+        note("func", x)
+        return x
+
+      def inverse(x, n):
+        note("inverse", x)
+        return dec(x, n)
+      opts["transform"], opts["inverse_transform"] = transform, inverse
+      for b, r in zip(wblks, results):
+        expect += [("transform", b), ("func", r), ("inverse", r)]
+    elif where == "before/after pair":
+      def before(blk):
+        note("before", blk, True)
+        return enc(list(blk))
+
+      def func(x):
+        note("func", x)
+        return x
+
+      def after(x):
+        note("after", x)
+        return dec(x, size)
+      opts["before"], opts["after"] = before, after
+      for b, r in zip(wblks, results):
+        expect += [("before", b), ("func", r), ("after", r)]
+    else:
+      def func(blk):
+        note("func", blk, True)
+        return enc(list(blk))
+
+      def inverse(x, n):
+        note("inverse", x)
+        return dec(x, n)
+      opts["inverse_transform"] = inverse
+      for b, r in zip(wblks, results):
+        expect += [("func", b), ("inverse", r)]
+  names = sorted(opts)
+  call = {k: opts[k] for k in names[::2]} if c["at_call"] else {}
+  build = {k: opts[k] for k in names if k not in call}
+  out = stft(func, **build)(list(sig), **call)
+  if not isinstance(out, Stream):
+    raise Violation("stft wrapper returned %s" % type(out).__name__)
+  got = list(out)
+  if len(received) != len(expect):
+    raise Violation("stage calls %r, expected %r" % ([s for s, _ in received], [s for s, _ in expect]))
+  for k, ((s, x), (es, ex)) in enumerate(zip(received, expect)):
+    if s != es or not _same(x, ex):
+      raise Violation("stage call %d: %s received %s %r, expected %s to receive %s %r - what the stage before it "
+                      "returned (%s, %s; size=%d hop=%d)"
+                      % (k, s, type(x).__name__, list.__repr__(x) if isinstance(x, list) else x,
+                         es, type(ex).__name__, list.__repr__(ex) if isinstance(ex, list) else ex,
+                         where, kind, size, hop))
+  if where == "analysis only":
+    if len(got) != nb or not all(_same(g, e) for g, e in zip(got, results)):
+      raise Violation("ola=None: the processor yields %r, the user function returned %r (%s)" % (got, results, kind))
+  else:
+    exp = ola_ref(wblks, size, hop, None, False)
+    if len(got) != len(exp) or any(not (g == e) for g, e in zip(got, exp)):
+      raise Violation("identity processing through %s as %s: output %r, expected the overlap-added blocks %r"
+                      % (where, kind, got, exp))
+  truth = []
+  for r in results:
+    try:
+      truth.append(bool(r))
+    except ValueError:
+      truth.append(None)
+  labels = ["where:" + where, "kind:" + kind, "window" if w is not None else "no window",
+            "call-time options" if call else "build-time only"]
+  if False in truth:
+    labels.append("a stage result is falsy")
+    if any(isinstance(r, (int, Q, dict)) or r == [] for r, t in zip(results, truth) if t is False):
+      labels.append("falsy because of the data (zero / empty)")
+  if None in truth:
+    labels.append("a stage result has no truth value")
+  return {"nontrivial": nb >= 2, "labels": labels}
 
 
 def strat_stft_bad(tier):
@@ -530,7 +767,8 @@ def run_stft_bad(c):
 CLAUSES = [
   Clause("ola", strat_ola, run_ola, quick=2500, thorough=40000,
          floors={"overlapping": .3, "detected size": .2, "no blocks": .03, "negative window entries": .1,
-                 "normalize:True": .15},
+                 "normalize:True": .15, "window:callable+iterable": .03,
+                 "window is a strategy dictionary": .06},
          doc="overlap_add.list == ola_ref: length m*h+size-h and every sample of the windowed hop-shifted sum with the stated gain"),
   Clause("refusals", strat_bad, run_bad, quick=300, thorough=3000,
          doc="wrong window length / wrong block length -> ValueError; non-iterable window -> TypeError"),
@@ -539,8 +777,15 @@ CLAUSES = [
          doc="blocking then overlap-adding with a sum-to-one window returns the signal on fully covered samples"),
   Clause("stft", strat_stft, run_stft, quick=1200, thorough=20000,
          floors={"style:decorator": .1, "style:partial": .1, "call-time options": .3, "window at analysis": .2,
-                 "call-time override": .05},
+                 "call-time override": .05, "overlap-add by default set before build": .08,
+                 "overlap-add by default set after build": .08},
          doc="stft wiring (window x block reaches the user function, stage order, ola_ options stripped and passed) and identity reconstruction"),
+  Clause("stft_stage_values", strat_values, run_values, quick=1200, thorough=15000,
+         floors={"a stage result is falsy": .15, "falsy because of the data (zero / empty)": .08,
+                 "a stage result has no truth value": .04, "kind:scalar": .03},
+         doc="each stage receives exactly what the stage before it returned, whatever that value is (0, empty "
+             "containers, objects that are falsy or have no truth value), and the last result is what is "
+             "overlap-added (or handed out with ola=None)"),
   Clause("stft_refusals", strat_stft_bad, run_stft_bad, quick=300, thorough=3000,
          doc="unknown option / missing size / ola option without ola -> TypeError; hop > size / wrong window length -> ValueError; ola=None yields blocks"),
 ]
